@@ -156,6 +156,14 @@ theorem C20_unlocked_write_races : Race racy 0 2 :=
     through a pointer (no value-receiver method copies it).  Checked against the regenerated skeleton. -/
 theorem C20_locks_are_shared : Skeleton.current.locksShared = true := by decide
 
+/-- The access table lists the variables goroutines share.  Variables of the closure proxy are not in
+    it because each invocation has its own: the closure id, the stub and the argument list are declared
+    inside the per-invocation literal (checked against the regenerated skeleton), so concurrent
+    invocations of one callable share no panrpc memory. -/
+theorem C20_proxy_state_is_per_invocation :
+    Skeleton.current.pxClosureIdPerInvocation = true ∧ Skeleton.current.pxArgsFreshPerInvocation = true ∧
+    Skeleton.current.pxCtxIsInvocationCtx = true := by decide
+
 end Panrpc.Ls
 
 #print axioms Panrpc.Ls.lockset_race_free
@@ -164,3 +172,4 @@ end Panrpc.Ls
 #print axioms Panrpc.Ls.C20_instance_pinned
 #print axioms Panrpc.Ls.C20_unlocked_write_races
 #print axioms Panrpc.Ls.C20_locks_are_shared
+#print axioms Panrpc.Ls.C20_proxy_state_is_per_invocation
